@@ -444,7 +444,7 @@ def accumulation(b, v, tier):
                     v.violation("many malformed lines in one run stop it with an error (%s)" % what, rep)
                 else:
                     whole, rest = sl.out_lines(got)
-                    mine = [w + b"\n" for w in whole if any(str(5100000 + j).encode() in w for j in range(4))]
+                    mine = [w.rstrip(b"\n") + b"\n" for w in whole if any(str(5100000 + j).encode() in w for j in range(4))]
                     if b"".join(mine) != exp:
                         v.violation("ordinary lines that follow many malformed lines are lost or altered (%s)" % what, rep)
                     elif len(whole) > len(goods) + count:
